@@ -1,6 +1,7 @@
 import RbV.Basic.Codec
 import RbV.Ref.Smem
 import RbV.Model.FMDExt
+import RbV.Model.LFSortedCheck
 /-! Driver for property C06: FMD-index.
 
 `c06 smems <s1>/<s2>/… k:<rate> l:<l> <pattern> => <sa> <smems(p,0,l)>/…/<smems(p,|p|-1,l)> <all_smems(p,l)>`
@@ -140,7 +141,8 @@ def extVerdict (seqs : List (List Nat)) (k : Nat) (chains : List Chain) (out : S
         let steps := res.foldl (fun a r => a + r.length) 0
         let bwt := LF.bwtOf T sa
         let agrees := (chains.zip res).all (fun (c, r) => modelChain (LF.lessRef bwt) (LF.occRef bwt) sa.length c == r)
-        "ok" ++ (if agrees then " model=impl" else " drift") ++ tagIf (res.any (fun r => r.length ≥ 3)) "nt"
+        "ok" ++ (if agrees then " model=impl" else " drift")
+          ++ (if LF.sortedAllB T sa then " lf-sorted" else " not-lf-sorted") ++ tagIf (res.any (fun r => r.length ≥ 3)) "nt"
           ++ tagIf (chains.any (·.emptyStart)) "from-empty"
           ++ tagIf (res.any (fun r => r.any (fun o => o.fhi = o.flo))) "reaches-empty"
           ++ tagIf (res.any (fun r => r.any (fun o => o.fhi - o.flo ≥ 2))) "multi-occ"
